@@ -4,21 +4,25 @@ Domain : generated Colang 2 programs (vf/co2.py: start/await/activate of flows a
          awaits, abort, return, loops) x histories mixing alphabet events (incl. co-simulated 'hit' events) with Started /
          Finished of running actions arriving late, early or never x tie-break outcomes; optionally 2-3 'sharer' flows that
          co-win one identical action on a common event and end at different times (shared Action object); enumerated
-         families: no-wait activated flows, same-event races, restart races, shared actions.
+         families: no-wait activated flows, same-event races, restart races, shared actions, activations with arguments;
+         optionally a parametrised flow activated 2-4 times with drawn argument spellings (several configurations of one flow,
+         several activators of one configuration) by main and by wrapper flows that end at different times.
 Oracle : history invariants checked after every processed event, from the outgoing events and a read-only look at State:
          (a) no Stop for an action that was never started, already stopped or already finished;
          (b) when a flow instance leaves the running set, every unfinished action it started that no still-running flow
              shares has received exactly one Stop by the end of that processing step;
          (c) no running non-activated flow has a non-running parent; every running activated flow has a running flow that
-             contains an `activate` statement for it;
-         (d) while the flow that first activated X (the parent of X's restart chain) is running, some instance of X is
-             listening after every step;
-         (e) is (c) applied to activated flows: after the last activator ended no instance of X is running.
+             contains an `activate` statement for its configuration (flow + parameter values: omitted parameter = its default,
+             None without one; positional = named);
+         (d) while the flow that first activated configuration X (the parent of X's restart chain) is running, some instance
+             of X with these parameter values is listening after every step; the same for every running flow whose FIRST
+             statement is `activate X ...` (a running instance has executed it);
+         (e) is (c) applied to activated flows: after the last activator of a configuration ended no instance of it is running.
 """
 from hypothesis import strategies as st
 
 from vf import co2, smh
-from vf.core import Violation, ok
+from vf.core import Violation, jdump, ok
 
 PID = "C06"
 LEVEL = "exploration"
@@ -27,17 +31,29 @@ RULE = (
     "enumerated: activated flows without any waiting statement (must run exactly once; 16 programs); a same-event race family (flow p queues start/activate/await of b, an action or a send while its parent q finishes/aborts/returns on the same "
     "event; both advancing orders; b pre-activated or not; p and q started or activated; 640 programs x 2 histories incl. idle time) and a restart-race family (an activated flow already restarted 0-2 times ends on the very event that ends its last activator; 36 programs) and a shared-action family (flows a, b and optionally c reach the identical action - start as $ref / anonymous start / await, "
     "in 5 pairings - on the same event in the same loop, so one Action object is shared; a more specific, b more specific, or equal scores with both tie-break outcomes; a started, started-and-aborting or activated; "
-    "b and c ending in one step; every order of {a ends, b ends, Started, Finished} with and without idle time, then the common event again; 80 programs x 64 histories in the quick tier, 120 x 88 in the thorough tier); generated: "
+    "b and c ending in one step; every order of {a ends, b ends, Started, Finished} with and without idle time, then the common event again; 80 programs x 64 histories in the quick tier, 120 x 88 in the thorough tier) and an "
+    "activation-argument family (flow b with one parameter without default / one with default / two parameters; flows a and c whose first statement is `activate b <arguments>`, over every ordered pair of spellings from "
+    "{omitted, positional, named, the default spelled out, None, another value; for two parameters also partly omitted / mixed}: different configurations, or one configuration with two activators; c started together with a, or later "
+    "when b may already have been restarted, or a executes both activations and c holds the second one too, or a third activator d with a's arguments arrives after a has ended and stayed idle for more than 5 s (ended flows are then dropped "
+    "from the state) and ends before or after c; a started or activated; b reacting with a send or an action (two configurations then conflict), or b activating a parameterless flow h of its own as its first statement (every configuration "
+    "of b is an activator of the one h, which is deactivated and activated anew whenever the instances of b end and restart); four histories (two for the third-activator shape) ending the activators "
+    "in either order with b reacting, restarting and idle time in between; 2576 cases in the quick tier, 6992 in the thorough tier); generated: "
     "program from the co2 grammar (hierarchies up to depth 4 through start/await/activate, when/or when, await groups, abort/return, "
     "actions with references); history of 1-30 items (events, guided 'hit' events, Started/Finished of the k-th running action - so "
     "Finished may arrive before the flow waits for it, late, or never); tie-break choices drawn; in about a third of the cases 2-3 extra 'sharer' flows are added to the program: each has its own drawn prefix, then the same "
     "`match Ev<e>` (with or without a parameter, i.e. equal or different matching scores) followed by the identical action (start as $ref / await), then a tail drawn from the same grammar (may call every helper, abort, return, wait for "
     "the shared reference or end at once); they are started or activated by main (at the top or at a drawn position) or by a wrapper flow that ends at some point, all in one loop - so one event makes them co-win one shared action and the "
-    "history decides in which order the sharers end relative to its Started / Finished (labels sharer-flows-added, shared-action-observed, sharer-ended-while-shared, finished-after-a-sharer-ended, last-sharer-ended-after-finished / -unfinished). Non-trivial = during the history a flow "
+    "history decides in which order the sharers end relative to its Started / Finished (labels sharer-flows-added, shared-action-observed, sharer-ended-while-shared, finished-after-a-sharer-ended, last-sharer-ended-after-finished / -unfinished); "
+    "independently, in about a third of the cases a parametrised target flow (parameter without default, with default 0 / 1, or two parameters; body drawn from the grammar, may test its parameters) is added together with 2-4 "
+    "`activate target <arguments>` statements whose arguments are drawn per parameter (omitted / positional / named, values 0, 1, None): each statement sits in main at a drawn position or is the first statement of a wrapper flow of its own "
+    "with a drawn tail, started or activated by main - so one flow runs in several configurations, or one configuration has several activators, which end at different times (labels arg-activations-added, "
+    "flow-activated-in-several-configurations, configuration-with-several-activators, several-configurations-of-one-flow-running, activator-ended-while-other-configuration-lives, several-running-instances-of-one-configuration). Non-trivial = during the history a flow "
     "instance that had a running child flow or an unfinished action left the running set; distinct by (program, history)."
 )
 ASSUMPTIONS = [
-    "activators of X are approximated statically: a running flow whose body contains `activate X` (reference counts are not observable)",
+    "activators of X are approximated statically: a running flow whose body contains `activate X` with arguments that name the same configuration (reference counts are not observable); only for flows whose first statement is the activation a running instance is known to have executed it",
+    "flow configuration = flow + parameter values after binding (positional = named; omitted = the declared default, None without one), per docs/colang_2 'Activate a Flow' ('a specific flow configuration (with identical flow parameters) can only be activated once'); arguments are literals; how MANY instances serve one configuration is not asserted (label several-running-instances-of-one-configuration), only that one is listening while an activator runs and none runs afterwards",
+    "all activations of one configuration within a case use the same number of positional arguments (later ones are re-spelled; such pairs are left out of the enumerated family): activating an already activated configuration with a positional argument its first activation did not spell positionally leaves the activator waiting forever at its activate statement on the unchanged tree (reported; no lifetime is broken, not part of the statement) - named vs omitted-default and all spellings across DIFFERENT configurations stay in",
     "every generated helper flow starts with a waiting statement; the 'finishes without ever waiting' exception is covered by the enumerated nowait family only",
     "actions are identified by the action_uid of their Start event; Finished events are only ever sent for started actions",
     "a history is cut (label history-cut-at-150-flow-instances, everything up to the cut is checked) once more than 150 flow instances exist (ordinary cases stay below 50; the cost per event grows quadratically): recursive programs in which every instance starts several new ones grow exponentially and would only run into the case timeout",
@@ -99,10 +115,130 @@ def _with_sharers(draw, prog):
     return {"flows": flows[:-1] + new + [dict(main, body=body)]}, {"n": k, "host": host, "activated": how.count("activate")}
 
 
+# Activations with arguments. A flow configuration = flow + values of its parameters (docs, "Activate a Flow": "a specific flow
+# configuration (with identical flow parameters) can only be activated once"); different values are different activations with
+# activators of their own. Parameters are [name, has_default, default]; an activation spells its arguments as a list of
+# ["pos", value] | ["named", name, value]; omitted parameters take their default (None without one).
+ARG_SIGNATURES = {
+    "nodefault": [["p", False, None]],
+    "default0": [["p", True, 0]],
+    "default1": [["p", True, 1]],
+    "two": [["p", False, None], ["q", True, 0]],
+}
+
+
+def _resolve(params, spelled):
+    """Reference model of the configuration an `activate X <arguments>` statement names."""
+    cfg = {p[0]: (p[2] if p[1] else None) for p in params}
+    i = 0
+    for item in spelled:
+        if item[0] == "pos":
+            cfg[params[i][0]] = item[1]
+            i += 1
+        else:
+            cfg[item[1]] = item[2]
+    return cfg
+
+
+def _spell(spelled):
+    return "".join(" " + smh.lit(a[1]) if a[0] == "pos" else f" ${a[1]}={smh.lit(a[2])}" for a in spelled)
+
+
+def _param_text(params):
+    return "".join(f" ${n}={smh.lit(d)}" if has else f" ${n}" for n, has, d in params)
+
+
+@st.composite
+def _spelling(draw, params):
+    """Arguments of one activation: every parameter omitted / positional / named (positional ones first, as the grammar wants)."""
+    val = st.sampled_from([0, 0, 1, 1, 1, None])
+    out = []
+    positional = True
+    for name, _has, _d in params:
+        how = draw(st.sampled_from(["omit", "pos", "pos", "named"]))
+        if how == "pos" and positional:
+            out.append(["pos", draw(val)])
+        else:
+            positional = False
+            if how != "omit":
+                out.append(["named", name, draw(val)])
+    return out
+
+
+def _positionals(spelled):
+    return sum(1 for a in spelled if a[0] == "pos")
+
+
+def _respell(params, spelled, k):
+    """The same configuration with exactly the first k parameters spelled positionally (values filled in from the resolved
+    configuration), the others as drawn (a positional one becomes a named one)."""
+    cfg = _resolve(params, spelled)
+    out = [["pos", cfg[params[i][0]]] for i in range(k)]
+    names = [p[0] for p in params]
+    i = 0
+    for item in spelled:
+        if item[0] == "pos":
+            name, value = names[i], item[1]
+            i += 1
+        else:
+            name, value = item[1], item[2]
+        if names.index(name) >= k:
+            out.append(["named", name, value])
+    return out
+
+
+@st.composite
+def _with_arg_activations(draw, prog):
+    """Adds a parametrised target flow (parameter with / without default, or two parameters) and 2-4 `activate target <arguments>`
+    statements with drawn argument spellings: each sits in main (at a drawn position) or at the top of a wrapper flow of its own
+    whose drawn tail decides when that activator ends; wrappers are started or activated by main. So one flow is activated in
+    several configurations (or one configuration by several activators, spelled alike or differently) whose activators end at
+    different times."""
+    flows = prog["flows"]
+    main = flows[-1]
+    nh = len(flows) - 1
+    helper_params = [bool(f["params"]) for f in flows[:-1]]
+    prof = dict(co2.DEFAULT_PROFILE)
+    prof.update(PROFILE)
+    inits = [{"k": "assign", "var": v, "expr": 0} for v in co2.VARS]
+    sig = draw(st.sampled_from(["nodefault", "nodefault", "default0", "default1", "two"]))
+    params = ARG_SIGNATURES[sig]
+    ctx = co2.Ctx(-1, nh, [p[0] for p in params], prof)
+    body = draw(co2._stmts(ctx, 1, helper_params, 1, 3, need_wait_first=True))
+    target = {"name": f"h{nh}", "params": [_param_text([p])[2:] for p in params], "loop": draw(st.sampled_from([None, None, None, "L1"])), "body": inits + body}
+    n = draw(st.integers(2, 4))
+    new = [target]
+    calls = []  # (statement for main, position None = top)
+    positional = {}  # configuration -> number of positional arguments all its activations use (see ASSUMPTIONS)
+    for i in range(n):
+        spelled = draw(_spelling(params))
+        k = positional.setdefault(_cfg_key(_resolve(params, spelled)), _positionals(spelled))
+        if k != _positionals(spelled):
+            spelled = _respell(params, spelled, k)
+        stmt = {"k": "raw", "text": f"activate h{nh}" + _spell(spelled), "act": {"f": nh, "args": spelled, "params": params}}
+        if draw(st.integers(0, 9)) < 7:
+            ctx = co2.Ctx(-1, nh, [], prof)
+            tail = draw(co2._stmts(ctx, 1, helper_params, 0, 2, need_wait_first=True))
+            name = nh + len(new)
+            new.append({"name": f"h{name}", "params": [], "loop": None, "body": inits + [dict(stmt, first=True)] + tail})
+            if draw(st.integers(0, 3)) == 0:
+                stmt = {"k": "activate", "f": name}
+            else:
+                stmt = {"k": "startflow", "f": name, "arg": None, "ref": 80 + i}
+        calls.append(stmt)
+    body = list(main["body"])
+    for stmt in calls:
+        at = len(co2.VARS) if draw(st.integers(0, 2)) else draw(st.integers(len(co2.VARS), len(body) - 1))
+        body.insert(at, stmt)
+    return {"flows": flows[:-1] + new + [dict(main, body=body)]}, {"sig": sig, "n": n}
+
+
 @st.composite
 def _case(draw):
     prog = draw(co2.programs(profile=PROFILE, max_helpers=4, depth=2))
     case = {}
+    if draw(st.integers(0, 9)) < 3:
+        prog, case["argact"] = draw(_with_arg_activations(prog))
     if draw(st.integers(0, 9)) < 3:
         prog, case["share"] = draw(_with_sharers(prog))
     case.update({"prog": prog, "hist": draw(co2.histories(30)), "choices": draw(st.lists(st.integers(0, 3), max_size=3))})
@@ -218,10 +354,87 @@ def _shared_cases(tier):
                         yield {"leg": "race", "family": "shared", "text": text, "hist": hist, "choices": list(choices), "activators": {"a": ["main"], "b": [], "c": []}}
 
 
+# Activations with arguments (enumerated): flow b with a parameter without default / with default / two parameters; flows a and c
+# each execute `activate b <arguments>` as their first statement (so a running instance of a / c HAS activated its configuration),
+# in every ordered pair of spellings (omitted, positional, named, the default spelled out, None, another value); c is started
+# together with a or later (after b may already have been restarted); a started or activated; or a executes both activations
+# and c keeps the second one; then the activators end in either order with Ping events (b reacts and restarts) and idle time
+# between.
+ARGS_FAMILY = {
+    "nodefault": ([["tag", False, None]], [[], [["pos", "x"]], [["named", "tag", "x"]], [["pos", "y"]], [["pos", None]]]),
+    "default": ([["tag", True, "d"]], [[], [["pos", "d"]], [["named", "tag", "d"]], [["pos", "x"]], [["named", "tag", "x"]]]),
+    "two": (
+        [["tag", False, None], ["n", True, 1]],
+        [[], [["pos", "x"]], [["pos", "x"], ["named", "n", 1]], [["pos", "x"], ["pos", 1]], [["named", "tag", "x"], ["named", "n", 1]], [["pos", "x"], ["named", "n", 2]], [["named", "n", 2]], [["pos", "x"], ["pos", 2]]],
+    ),
+}
+# body of b: reacts with a send / an action / activates a parameterless flow h of its own first (every configuration of b is
+# then an activator of the one h; h is deactivated and activated anew whenever the instances of b end and restart)
+ARGS_B_MID = {
+    "send": ["match Ping()", "send OutB(tag=$tag)"],
+    "action": ["match Ping()", 'start UtteranceBotAction(script="pong {$tag}")'],
+    "nested": ["activate h", "match Ping()", "send OutB(tag=$tag)"],
+}
+ARGS_HISTS = {
+    "a-first": ["Go", "Ping", "StopA", "Ping", "StopC", "Ping"],
+    "c-first-restarted": ["Ping", "Go", "Ping", "StopC", "Ping", "StopA", "Ping"],
+    "a-first-idle": ["Ping", "Go", "StopA", "age", "Ping", "StopC", "age", "Ping"],
+    "c-first": ["Go", "StopC", "Ping", "StopA", "Ping", "Go"],
+}
+# shape "third": a third activator d (arguments of a) arrives after a has ended and been idle for more than 5 s (ended flows are
+# then dropped from the state), while c may still hold the same configuration; then d and c end in either order
+ARGS_HISTS_THIRD = {
+    "third-after-idle": ["Go", "StopA", "age", "Tick", "Go2", "Ping", "StopD", "Ping", "StopC", "Ping"],
+    "third-after-idle-restarted": ["Ping", "Go", "Ping", "StopA", "age", "Tick", "Go2", "Ping", "StopC", "age", "Ping", "StopD", "Ping"],
+}
+
+
+def _args_text(params, first, second, b_mid, shape, a_mode):
+    lines = ["flow h", "  match Hx()", "  send OutH()", ""] if b_mid == "nested" else []
+    lines += ["flow b" + _param_text(params)] + ["  " + x for x in ARGS_B_MID[b_mid]] + [""]
+    lines += ["flow a", "  activate b" + _spell(first)] + (["  activate b" + _spell(second)] if shape == "both-in-a" else []) + ["  match StopA()", ""]
+    lines += ["flow c", "  activate b" + _spell(second), "  match StopC()", ""]
+    if shape == "third":
+        lines += ["flow d", "  activate b" + _spell(first), "  match StopD()", ""]
+    lines += ["flow main", f"  {a_mode} a"] + (["  match Go()"] if shape != "together" else []) + ["  start c"] + (["  match Go2()", "  start d"] if shape == "third" else []) + ["  match Never()", ""]
+    return "\n".join(lines)
+
+
+def _args_cases(tier):
+    for sig, (params, pool) in ARGS_FAMILY.items():
+        for first in pool:
+            for second in pool:
+                if _resolve(params, first) == _resolve(params, second) and _positionals(first) != _positionals(second):
+                    continue  # one configuration spelled with different numbers of positional arguments: see ASSUMPTIONS
+                for shape in ("together", "later", "both-in-a", "third"):
+                    for a_mode in ("start", "activate"):
+                        for b_mid in ARGS_B_MID:
+                            if tier == "quick" and (b_mid == "send") != (a_mode == "activate"):
+                                continue  # quick tier: half of the (a_mode, b_mid) grid
+                            if b_mid == "nested" and shape == "both-in-a":
+                                continue
+                            text = _args_text(params, first, second, b_mid, shape, a_mode)
+                            acts = [["a", "b", _resolve(params, first), True], ["c", "b", _resolve(params, second), True]]
+                            if shape == "both-in-a":
+                                acts.append(["a", "b", _resolve(params, second), False])
+                            if shape == "third":
+                                acts.append(["d", "b", _resolve(params, first), True])
+                            if b_mid == "nested":
+                                acts.append(["b", "h", {}, True])
+                            for hname, h in (ARGS_HISTS_THIRD if shape == "third" else ARGS_HISTS).items():
+                                if tier == "quick" and shape == "both-in-a" and hname in ("a-first-idle", "c-first"):
+                                    continue
+                                if tier == "quick" and b_mid == "nested" and "idle" not in hname:
+                                    continue  # the nested variant is about instances dropped from the state after idle time
+                                hist = [["age"] if x == "age" else ["raw", x, None] for x in h]
+                                yield {"leg": "race", "family": "args", "text": text, "hist": hist, "choices": [], "activators": {"a": ["main"], "c": [], "d": []}, "activations": acts, "sig": sig}
+
+
 def enumerate_cases(tier):
     yield from _nowait_cases()
     yield from _restart_race_cases()
     yield from _shared_cases(tier)
+    yield from _args_cases(tier)
     hists = [
         [["raw", "E", 1], ["raw", "Eb", None], ["raw", "StopKeeper", None], ["raw", "Eb", None], ["raw", "E", 1], ["raw", "Eb", None]],
         [["raw", "E", 1], ["age"], ["raw", "Eb", None], ["raw", "Other", None], ["raw", "StopKeeper", None], ["raw", "Eb", None], ["raw", "E", 1]],
@@ -237,13 +450,17 @@ def enumerate_cases(tier):
 
 
 def _activators(prog):
-    """flow name -> set of flow names that contain `activate <name>`."""
+    """flow name -> list of [activator flow name, configuration (dict parameter -> value), sure]: the flows that contain an
+    `activate <name> <arguments>` statement; sure = it is the activator's first statement (every running instance has executed it)."""
     out = {}
 
     def walk(stmts, owner):
         for s in stmts:
             if s["k"] == "activate":
-                out.setdefault(f"h{s['f']}", set()).add(owner)
+                out.setdefault(f"h{s['f']}", []).append([owner, {}, False])
+            elif s["k"] == "raw" and "act" in s:
+                a = s["act"]
+                out.setdefault(f"h{a['f']}", []).append([owner, _resolve(a["params"], a["args"]), bool(s.get("first"))])
             for key in ("then", "else", "body"):
                 if isinstance(s.get(key), list):
                     walk(s[key], owner)
@@ -253,6 +470,24 @@ def _activators(prog):
     for fl in prog["flows"]:
         walk(fl["body"], fl["name"])
     return out
+
+
+def _case_activators(case):
+    """Enumerated families list their activators by hand: {flow: [activator, ...]} (any configuration) and, for activations
+    with arguments, [activator, flow, configuration, sure]."""
+    out = {k: [[by, None, False] for by in v] for k, v in case["activators"].items()}
+    for by, fid, cfg, sure in case.get("activations", []):
+        out.setdefault(fid, []).append([by, cfg, sure])
+    return out
+
+
+def _cfg_key(cfg):
+    return jdump(cfg)
+
+
+def _allowed(activators, fid, cfg):
+    """Names of the flows that contain an activation of exactly this configuration of fid."""
+    return {by for by, c, _sure in activators.get(fid, []) if c is None or c == cfg}
 
 
 class Ledger:
@@ -266,12 +501,19 @@ class Ledger:
         self.flags = set()  # which shapes of the shared-action life cycle the history went through (labels only)
 
 
+_NO_PARAMETERS = {}
+
+
 def _snapshot(state):
     s = smh.sm()
     snap = {}
     for fs in state.flow_states.values():
+        params = state.flow_configs[fs.flow_id].parameters
+        cfg = {p.name: fs.arguments.get(p.name) for p in params} if params else _NO_PARAMETERS
         snap[fs.uid] = {
             "flow_id": fs.flow_id,
+            "cfg": cfg,
+            "cfg_key": _cfg_key(cfg) if params else "{}",
             "running": s.is_active_flow(fs),
             "listening": s.is_listening_flow(fs),
             "status": fs.status.value,
@@ -336,14 +578,16 @@ def _check_step(prev, cur, ledger, outs, activators, text, where):
             holders[a] = holders.get(a, 0) + 1
     ledger.shared.update(a for a, n in holders.items() if n > 1 and a in ledger.started)
     # (c)/(e) orphans
+    per_config = {}  # labels only: running activated instances per configuration
     for uid in running_now:
         f = cur[uid]
         if f["flow_id"] == "main" or f["parent"] is None:
             continue
         if f["activated"] > 0:
-            acts = activators.get(f["flow_id"], set())
+            acts = _allowed(activators, f["flow_id"], f["cfg"])
             if not any(cur[r]["flow_id"] in acts for r in running_now):
-                raise Violation("activated-flow-outlives-activators", f"{where}: activated flow {f['flow_id']} is running but no flow containing `activate {f['flow_id']}` is\n{text}")
+                what = f"{f['flow_id']} {f['cfg']}" if f["cfg"] else f["flow_id"]
+                raise Violation("activated-flow-outlives-activators", f"{where}: activated flow {what} is running but no flow containing an `activate` statement for this configuration is (flows with such a statement: {sorted(acts)})\n{text}")
             # remember the activator that is observable: the parent of the first instance of the restart chain (for d);
             # further activators only increase a reference count and cannot be told apart from flows that merely
             # contain an `activate` statement they have not executed yet
@@ -351,7 +595,9 @@ def _check_step(prev, cur, ledger, outs, activators, text, where):
             while anc in cur and cur[anc]["flow_id"] == f["flow_id"]:
                 anc = cur[anc]["parent"]
             if anc in cur and cur[anc]["running"] and cur[anc]["flow_id"] in acts:
-                ledger.activation_pairs.add((anc, f["flow_id"]))
+                ledger.activation_pairs.add((anc, f["flow_id"], f["cfg_key"]))
+            key = (f["flow_id"], f["cfg_key"])
+            per_config[key] = per_config.get(key, 0) + 1
         else:
             p = cur.get(f["parent"])
             if p is None or not p["running"]:
@@ -359,7 +605,34 @@ def _check_step(prev, cur, ledger, outs, activators, text, where):
                     "orphan-flow",
                     f"{where}: flow {f['flow_id']} is still running but its parent {p['flow_id'] if p else '<gone>'} is {p['status'] if p else 'gone'}\n{text}",
                 )
+    if any(n > 1 for n in per_config.values()):
+        ledger.flags.add("several-running-instances-of-one-configuration")
+    if len({fid for fid, _ in per_config}) < len(per_config):
+        ledger.flags.add("several-configurations-of-one-flow-running")
+        # the shape that tells configurations apart: an activator of one configuration ended while another configuration lives on
+        gone = {f["flow_id"] for uid, f in prev.items() if f["running"] and uid not in running_now}
+        for fid, entries in activators.items():
+            if any(by in gone and c for by, c, _sure in entries) and sum(1 for k in per_config if k[0] == fid) > 1:
+                ledger.flags.add("activator-ended-while-other-configuration-lives")
     return ended_with_dependants
+
+
+def _check_sure_activations(cur, activators, text, where):
+    """(d) for activators whose FIRST statement is the activation: a running instance has executed it, so its configuration of
+    the activated flow must have a listening instance (started for it, or shared with an earlier activator of the same
+    configuration, and restarted whenever it ended)."""
+    running_ids = {f["flow_id"] for f in cur.values() if f["running"]}
+    for fid, entries in activators.items():
+        for by, cfg, sure in entries:
+            if not sure or by not in running_ids:
+                continue
+            key = _cfg_key(cfg)
+            if not any(f["flow_id"] == fid and f["cfg_key"] == key and f["listening"] for f in cur.values()):
+                others = sorted({f["cfg_key"] for f in cur.values() if f["flow_id"] == fid and f["listening"]})
+                raise Violation(
+                    "activation-without-listening-instance",
+                    f"{where}: flow {by} is running and has executed `activate {fid}` with configuration {cfg}, but no instance of {fid} with these parameter values is listening (listening configurations: {others})\n{text}",
+                )
 
 
 def _crosses_loops(uid, snap):
@@ -374,12 +647,13 @@ def _crosses_loops(uid, snap):
 
 
 def _check_activation_liveness(cur, ledger, confirmed, text, where):
-    for act_uid, fid in confirmed:
+    for act_uid, fid, key in confirmed:
         a = cur.get(act_uid)
         if a is None or not a["running"]:
             continue
-        if not any(f["flow_id"] == fid and f["listening"] for f in cur.values()):
-            raise Violation("activated-flow-not-restarted", f"{where}: flow {a['flow_id']} activated {fid} and is still running, but no instance of {fid} is listening\n{text}")
+        if not any(f["flow_id"] == fid and f["cfg_key"] == key and f["listening"] for f in cur.values()):
+            what = fid if key == "{}" else f"{fid} {key}"
+            raise Violation("activated-flow-not-restarted", f"{where}: flow {a['flow_id']} activated {what} and is still running, but no instance of {what} is listening\n{text}")
 
 
 class _StepBudget(BaseException):
@@ -446,7 +720,7 @@ def prop(case):
         return _nowait_prop(case)
     if case.get("leg") == "race":
         text = case["text"]
-        activators = {k: set(v) for k, v in case["activators"].items()}
+        activators = _case_activators(case)
     else:
         text = co2.render(case["prog"])
         activators = _activators(case["prog"])
@@ -462,10 +736,10 @@ def prop(case):
     confirmed = set()
 
     def confirm():
-        for act_uid, fid in ledger.activation_pairs:
-            confirmed.add((act_uid, fid))
+        confirmed.update(ledger.activation_pairs)
 
     confirm()
+    _check_sure_activations(cur, activators, text, "after start")
     fed = 0
     cut = False
     for i, item in enumerate(case["hist"]):
@@ -495,6 +769,7 @@ def prop(case):
         _check_activation_liveness(cur, ledger, set(confirmed), text, where)
         if _check_step(prev, cur, ledger, outs, activators, text, where):
             nt = True
+        _check_sure_activations(cur, activators, text, where)
         confirm()
         if len(cur) > MAX_FLOW_INSTANCES:
             cut = True  # a recursive program that multiplies itself on every event: the rest of the history would only time out
@@ -502,7 +777,16 @@ def prop(case):
     from collections import Counter
 
     kinds = co2.count_kinds(case["prog"]) if case.get("leg") != "race" else Counter()
-    labels = ["shared-family" if case.get("family") == "shared" else "race-family"] if case.get("leg") == "race" else []
+    labels = [{"shared": "shared-family", "args": "args-family"}.get(case.get("family"), "race-family")] if case.get("leg") == "race" else []
+    if case.get("family") == "args":
+        labels.append("args-signature-" + case["sig"])
+    if case.get("argact"):
+        labels.append("arg-activations-added")
+    configs = {fid: {_cfg_key(c) for _by, c, _sure in entries if c} for fid, entries in activators.items()}
+    if any(len(v) > 1 for v in configs.values()):
+        labels.append("flow-activated-in-several-configurations")
+    if any(sum(1 for _by, c, _sure in entries if c and _cfg_key(c) == k) > 1 for fid, entries in activators.items() for k in configs[fid]):
+        labels.append("configuration-with-several-activators")
     if case.get("share"):
         labels.append("sharer-flows-added")
     if ledger.shared:
